@@ -230,6 +230,13 @@ def w2_noise(ctx):
         conds = ' & '.join(g.cond_text(bid))
         if 'token_type' in conds or 'Some' in conds or 'discr(' in conds:
             good = True
+    if not good:
+        # iterator form: the values pass through filter_map / flatten over the Option<TokenType>, which lets only Some payloads through
+        fm = model.deep_calls(ctx, g, r'Iterator>?::(filter_map|flatten|flat_map)$')
+        srcs = ' '.join(render(a_) for _b, _t, as_ in fm for a_ in as_)
+        clos = ' '.join(render(ctx.facts.bodies[x[1][8:]].ret_expr()) for _b, _t, as_ in fm for a_ in as_ for x in walk(a_) if x[0] == 'aggr' and x[1].startswith('closure:') and x[1][8:] in ctx.facts.bodies)
+        if fm and 'token_type' in (srcs + clos):
+            good = True
     if good:
         ctx.ok('W2', 'token_generator forwards tokens under a Some(token_type) guard', 'guard-dom', site=g.loc)
     else:
